@@ -791,9 +791,49 @@ def runStruct (ins outs : List String) : Verdict :=
     | [] => .bad "C03 S no output")
   | _ => .bad "C03 S input fields"
 
+/-! ## stream V — the exported readers `runtime.ReadSingleValue` / `runtime.ReadCollectionValue`
+(request.go), which generated servers use for the same job as the binder: "the last occurrence for
+scalars, the split … items for arrays", over a `Gettable` source. Two sources: `runtime.Values` (a map
+from key to the values in the order sent) and `middleware.RouteParams` (its `GetOK` yields the FIRST
+pair of that name; a path parameter occurs once). -/
+
+/-- `Values.GetOK` then `vv[len(vv)-1]`: the last value under the key, `""` when there is none -/
+def readSingleValues (pairs : List (Bytes × Bytes)) (name : Bytes) : Bytes :=
+  ((pairs.filter (·.1 == name)).map (·.2)).getLast?.getD []
+
+/-- `RouteParams.GetOK` then the only element (or `""`) -/
+def readSingleRoute (pairs : List (Bytes × Bytes)) (name : Bytes) : Bytes :=
+  ((pairs.find? (·.1 == name)).map (·.2)).getD []
+
+def readSingle (routeSrc : Bool) (pairs : List (Bytes × Bytes)) (name : Bytes) : Bytes :=
+  if routeSrc then readSingleRoute pairs name else readSingleValues pairs name
+
+def readCollection (routeSrc : Bool) (pairs : List (Bytes × Bytes)) (name : Bytes) (cf : String) : List Bytes :=
+  splitByFormat (readSingle routeSrc pairs name) cf
+
+def runV (ins outs : List String) : Verdict :=
+  match ins, outs with
+  | ["V", src, keys, vals, name, cf], [single, coll] =>
+    match decList keys, decList vals, decField name with
+    | some ks, some vs, some nm =>
+      if ks.length != vs.length then .bad "V lists" else
+      let pairs := ks.zip vs
+      let m1 := readSingle (src == "r") pairs nm
+      let m2 := readCollection (src == "r") pairs nm cf
+      let m := encField m1 ++ " " ++ encList m2
+      let ok := m == single ++ " " ++ coll
+      -- Spec = the property's wording itself: last occurrence, then the split
+      { agree := ok, specOk := ok,
+        tag := (if (pairs.filter (·.1 == nm)).isEmpty then "~V:absent" else s!"V:{src}:n={(pairs.filter (·.1 == nm)).length.min 3}:{cf}"),
+        model := m }
+    | _, _, _ => .bad "V fields"
+  | _, ["PANIC", msg] => { agree := false, specOk := false, tag := "panic", model := "no panic expected; impl: " ++ msg }
+  | _, _ => .bad "V stream"
+
 /-- all streams of C03 -/
 def runX (ins outs : List String) : Verdict :=
   match ins with
+  | "V" :: _ => runV ins outs
   | "F" :: _ | "FB" :: _ | "FS" :: _ =>
     (match outs with
     | ["INVALID"] => { agree := true, specOk := true, tag := "~invalid-input", model := "-" }
